@@ -49,6 +49,13 @@
 
 /* ---- ASSUMED callee contracts (str.c, obj.c) --------------------------------------------- */
 #ifndef VERIF_NO_ASSUMED_STR_CONTRACTS
+/* units that need only shape facts (freshness, length, terminator) of constructor results define
+ * NET_NO_CONTENT: the byte-for-byte clauses are then not assumed (a weaker assumption) */
+#ifdef NET_NO_CONTENT
+# define NET_CONTENT(x)
+#else
+# define NET_CONTENT(x) x
+#endif
 
 spif_bool_t spif_obj_set_class(spif_obj_t self, spif_class_t cls)
 __CPROVER_requires(__CPROVER_w_ok(self, sizeof(spif_const_obj_t)))
@@ -68,8 +75,8 @@ __CPROVER_ensures(buff == NULL || __CPROVER_return_value->len == size || buff[__
 __CPROVER_ensures(__CPROVER_return_value->size == ((__CPROVER_return_value->len == size) ? size + 1 : size))
 __CPROVER_ensures(__CPROVER_is_fresh(__CPROVER_return_value->s, (size_t) __CPROVER_return_value->size))
 __CPROVER_ensures(__CPROVER_return_value->s[__CPROVER_return_value->len] == 0)
-__CPROVER_ensures(!(vg_k < (size_t) __CPROVER_return_value->len) ||
-                  (__CPROVER_return_value->s[vg_k] == buff[vg_k] && buff[vg_k] != 0))
+NET_CONTENT(__CPROVER_ensures(!(vg_k < (size_t) __CPROVER_return_value->len) ||
+                  (__CPROVER_return_value->s[vg_k] == buff[vg_k] && buff[vg_k] != 0)))
 ;
 
 /* str.c:181  (old == NULL falls back to spif_str_init: not used by url.c, excluded) */
@@ -81,8 +88,8 @@ __CPROVER_ensures(__CPROVER_return_value->len >= 0 && VCSTR_LEN_IS(old, __CPROVE
 __CPROVER_ensures(__CPROVER_return_value->size == __CPROVER_return_value->len + 1)
 __CPROVER_ensures(__CPROVER_is_fresh(__CPROVER_return_value->s, (size_t) __CPROVER_return_value->size))
 __CPROVER_ensures(__CPROVER_return_value->s[__CPROVER_return_value->len] == 0)
-__CPROVER_ensures(!(vg_k < (size_t) __CPROVER_return_value->len) ||
-                  (__CPROVER_return_value->s[vg_k] == old[vg_k] && old[vg_k] != 0))
+NET_CONTENT(__CPROVER_ensures(!(vg_k < (size_t) __CPROVER_return_value->len) ||
+                  (__CPROVER_return_value->s[vg_k] == old[vg_k] && old[vg_k] != 0)))
 ;
 
 spif_bool_t spif_str_init(spif_str_t self)
